@@ -68,7 +68,7 @@ def gen_calendar(rng, lo, hi, allow_named=True):
             mask, hols = gen_mask(rng), gen_hols(rng, lo, hi)
             if len(set(mask)) >= 7:
                 continue
-            kind = rng.choice([0, 0, 3])
+            kind = rng.choice([0, 0, 3]) + (10 if rng.random() < 0.3 else 0)      # 10+: restored from a saved document
             return [kind] + enc_cal(mask, hols), {"kind": kind, "masks": [mask], "hols": [hols], "settle": None}
         nc = rng.randint(1, 3)
         cals = [(gen_mask(rng), gen_hols(rng, lo, hi)) for _ in range(nc)]
@@ -80,7 +80,7 @@ def gen_calendar(rng, lo, hi, allow_named=True):
             allm |= set(m)
         if len(allm) >= 7:
             continue
-        kind = rng.choice([1, 1, 1, 2])
+        kind = rng.choice([1, 1, 1, 2]) + (10 if rng.random() < 0.3 else 0)
         enc = [kind, nc]
         for m, h in cals:
             enc += enc_cal(m, h)
